@@ -34,8 +34,14 @@ Theorem C16_names_are_assigned :
 Proof. exact names_nth. Qed.
 Print Assumptions C16_names_are_assigned.
 
-(* NOT PROVED as a theorem: that the traversal lists every element of the tree exactly once ([elems] is a permutation of
-   all element objects); it is decided per generated circuit on the implementation's observed order (sorted id lists). *)
+(* the traversal lists no element object twice, so every listed object receives exactly one running identifier *)
+Theorem C16_traversal_no_duplicates :
+  forall fuel c, NoDup (map ie_uid (elems fuel c)) /\ NoDup (map fst (running_ids (elems fuel c))).
+Proof. intros. split; [apply elems_no_duplicates|apply running_ids_functional]. Qed.
+Print Assumptions C16_traversal_no_duplicates.
+
+(* NOT PROVED as a theorem: that the traversal reaches every element object of the tree (completeness of [elems] with respect
+   to [all_uids_conn]); it is decided per generated circuit on the implementation's observed order (sorted id lists). *)
 Example C16_nonvacuous :
   let es := [mkIE 0 [82%N] [] [[82%N]] []; mkIE 1 [67%N] [] [[67%N]] []; mkIE 2 [82%N] [97%N] [[82%N]] []; mkIE 3 [82%N] [] [[82%N]] []] in
   map snd (typed_ids es) = [1; 1; 2; 3]%nat /\ map snd (names es) = [[82; 95; 49]; [67; 95; 49]; [82; 95; 97]; [82; 95; 51]]%N.
